@@ -115,24 +115,55 @@ pub fn gen_commit(rng: &mut Rng, u: &Universe, reset_pct: u64) -> DatabaseUpdate
 
 // ---- Coq printers -------------------------------------------------------------------------------
 
+/// byte string as `list N`, long runs of one byte printed as `repeat b n` (keeps case files small
+/// when keys of 2047 x 0xFF are used)
+pub fn cb(bs: &[u8]) -> String {
+    if bs.len() <= 24 {
+        return coq_bytes(bs);
+    }
+    let mut parts: Vec<String> = Vec::new();
+    let mut lit: Vec<u8> = Vec::new();
+    let mut i = 0;
+    while i < bs.len() {
+        let mut j = i;
+        while j < bs.len() && bs[j] == bs[i] {
+            j += 1;
+        }
+        if j - i >= 16 {
+            if !lit.is_empty() {
+                parts.push(coq_bytes(&lit));
+                lit.clear();
+            }
+            parts.push(format!("repeat {} {}", bs[i], j - i));
+        } else {
+            lit.extend_from_slice(&bs[i..j]);
+        }
+        i = j;
+    }
+    if !lit.is_empty() {
+        parts.push(coq_bytes(&lit));
+    }
+    format!("({})", parts.join(" ++ "))
+}
+
 pub fn pk_coq(pk: &DbPartitionKey) -> String {
-    format!("({}, {})", coq_bytes(&pk.node_key), pk.partition_num)
+    format!("({}, {})", cb(&pk.node_key), pk.partition_num)
 }
 pub fn entries_coq(es: &[(Vec<u8>, Vec<u8>)]) -> String {
-    coq_list(es.iter().map(|(k, v)| format!("({}, {})", coq_bytes(k), coq_bytes(v))))
+    coq_list(es.iter().map(|(k, v)| format!("({}, {})", cb(k), cb(v))))
 }
 pub fn part_updates_coq(pu: &PartitionDatabaseUpdates) -> String {
     match pu {
         PartitionDatabaseUpdates::Delta { substate_updates } => format!(
             "PDelta {}",
             coq_list(substate_updates.iter().map(|(k, u)| match u {
-                DatabaseUpdate::Set(v) => format!("({}, USet {})", coq_bytes(&k.0), coq_bytes(v)),
-                DatabaseUpdate::Delete => format!("({}, UDelete)", coq_bytes(&k.0)),
+                DatabaseUpdate::Set(v) => format!("({}, USet {})", cb(&k.0), cb(v)),
+                DatabaseUpdate::Delete => format!("({}, UDelete)", cb(&k.0)),
             }))
         ),
         PartitionDatabaseUpdates::Reset { new_substate_values } => format!(
             "PReset {}",
-            coq_list(new_substate_values.iter().map(|(k, v)| format!("({}, {})", coq_bytes(&k.0), coq_bytes(v))))
+            coq_list(new_substate_values.iter().map(|(k, v)| format!("({}, {})", cb(&k.0), cb(v))))
         ),
     }
 }
@@ -140,13 +171,13 @@ pub fn updates_coq(du: &DatabaseUpdates) -> String {
     coq_list(du.node_updates.iter().map(|(nk, nu)| {
         format!(
             "({}, {})",
-            coq_bytes(nk),
+            cb(nk),
             coq_list(nu.partition_updates.iter().map(|(pn, pu)| format!("({}, {})", pn, part_updates_coq(pu))))
         )
     }))
 }
 pub fn cursor_coq(c: &Option<Vec<u8>>) -> String {
-    coq_option(c.as_ref().map(|k| coq_bytes(k)))
+    coq_option(c.as_ref().map(|k| cb(k)))
 }
 
 // ---- statistics ---------------------------------------------------------------------------------
